@@ -19,6 +19,30 @@ class HarnessError(Exception):
     pass
 
 
+JOURNAL_DIR = os.path.join(os.path.dirname(os.path.abspath(__file__)), "..", ".cache", "journal")
+_journal_fh = None
+
+
+def journal(text):
+    """Called by check code inside a worker right before executing a case: the last line survives a crash."""
+    global _journal_fh
+    if _journal_fh is None:
+        os.makedirs(JOURNAL_DIR, exist_ok=True)
+        _journal_fh = open(os.path.join(JOURNAL_DIR, str(os.getpid())), "w")
+    _journal_fh.seek(0)
+    _journal_fh.truncate()
+    _journal_fh.write(text)
+    _journal_fh.flush()
+
+
+def read_journal(pid):
+    try:
+        with open(os.path.join(JOURNAL_DIR, str(pid))) as f:
+            return f.read()
+    except OSError:
+        return None
+
+
 def _worker_main(conn, threads):
     try:
         signal.signal(signal.SIGINT, signal.SIG_IGN)
@@ -133,7 +157,7 @@ class Pool:
                     if w.task is None:
                         raise HarnessError(f"worker died while idle/booting (exit {code})")
                     self.crashes += 1
-                    results[w.task] = ("crash", {"exitcode": code, "signal": -code if code and code < 0 else None})
+                    results[w.task] = ("crash", {"exitcode": code, "signal": -code if code and code < 0 else None, "journal": read_journal(w.proc.pid)})
                     done += 1
                     if progress:
                         progress(done, len(payloads))
